@@ -132,6 +132,12 @@ class NP:
     degrees = staticmethod(sym.degrees)
     rad2deg = staticmethod(sym.degrees)
 
+    def ceil(self, x):
+        return sym.ceil(x) if isinstance(x, SNum) else np.ceil(x)
+
+    def floor(self, x):
+        return sym.floor(x) if isinstance(x, SNum) else np.floor(x)
+
     def sign(self, x):
         if isinstance(x, SNum):
             return sym.sign(x)
@@ -175,5 +181,6 @@ NUMPY_FUNCS = {
     np.cos: sym.cos, np.sin: sym.sin, np.tan: sym.tan, np.arccos: sym.arccos, np.arcsin: sym.arcsin,
     np.arctan: sym.arctan, np.arctan2: sym.arctan2, np.cosh: sym.cosh, np.sinh: sym.sinh,
     np.arctanh: sym.arctanh, np.sqrt: sym.sqrt, np.radians: sym.radians, np.degrees: sym.degrees,
-    np.deg2rad: sym.radians, np.rad2deg: sym.degrees,
+    np.deg2rad: sym.radians, np.rad2deg: sym.degrees, np.ceil: (lambda x: sym.ceil(x) if isinstance(x, SNum) else np.ceil(x)),
+    np.floor: (lambda x: sym.floor(x) if isinstance(x, SNum) else np.floor(x)),
 }
